@@ -180,6 +180,8 @@ def observed(job: Dict[str, Any], r: Dict[str, Any], mode: str) -> Tuple[Set[str
             lines += [w for w in v["warnings"] if "redefined" in w]
             if v["rc"] != 0 and not v["errors"]:
                 lines.append(f"{c}: gcc exit status {v['rc']}")
+        if t["link"]:
+            lines += [w for w in t["link"].get("warnings", []) if "redefined" in w]
         if t["link"] and t["link"]["rc"] != 0:
             lines += t["link"]["errors"] or [f"link exit status {t['link']['rc']}"]
         if t["probe"] and "error" in t["probe"]:
@@ -263,8 +265,8 @@ def run(ck: Check) -> None:
         jobs.append({"files": c["files"], "order": c["order"], "filter": c.get("filter") or [],
                      "modes": c.get("modes"), "origin": "corpus:" + os.path.basename(p), "expect": c.get("expect")})
     n_corpus = len(jobs)
-    n_own = ck.n(24, 400)
-    n_sg = ck.n(8, 150)
+    n_own = ck.n(14, 400)
+    n_sg = ck.n(6, 150)
     if os.environ.get("VERIF_C10_N"):            # development aid: "own,schema_gen" sizes
         n_own, n_sg = [int(x) for x in os.environ["VERIF_C10_N"].split(",")]
     own: List[Dict[str, Any]] = []
@@ -298,7 +300,12 @@ def run(ck: Check) -> None:
         jb["id"] = j
         jb["dir"] = os.path.join(ck.dir, f"j{j}")
         jb["modes"] = job_modes(jb)
-    wjobs = [{k: v for k, v in jb.items() if k in ("id", "dir", "files", "order", "filter", "modes")} for jb in jobs]
+    for j, jb in enumerate(jobs):
+        jb["syntax_always"] = not ck.quick
+        # quick tier: the -O -F variant on every other generated job (always on corpus / known-class jobs)
+        if ck.quick and jb["origin"].startswith(("own#", "schema_gen#")) and j % 2 == 1:
+            jb["modes"] = [m for m in jb["modes"] if m != "cof"]
+    wjobs = [{k: v for k, v in jb.items() if k in ("id", "dir", "files", "order", "filter", "modes", "syntax_always")} for jb in jobs]
 
     # ---- case converters: sweep of short strings + the identifiers of this run ----
     alpha = ["a", "b", "A", "B", "1", "_"]
@@ -389,6 +396,7 @@ def run(ck: Check) -> None:
         elif kind == "verdict":
             d["verdict"][(i, extra)] = code
 
+    corpus_status: Dict[str, Any] = {}
     n_tie_bad = 0
     n_outside_pre = 0
     n_clean = 0
@@ -431,6 +439,8 @@ def run(ck: Check) -> None:
                 if m2 == mode:
                     pred |= code
             cats, diags = observed(jb, r, mode)
+            if ck.quick and mode in ("co", "cof"):
+                pred &= ~32       # quick tier: the C++ layout comparison runs on the standard-mode header only
             if guards & 1:
                 n_outside_pre += 1        # outside the property's own precondition for this language
                 continue
@@ -462,9 +472,22 @@ def run(ck: Check) -> None:
                                      f"toolchain does not report", json.dumps(replay)[:2500]))
                     continue
                 n_known += 1
+                if jb["origin"].startswith("corpus:"):
+                    corpus_status.setdefault(jb["origin"], set()).add(key or f"unclassified-{cat}")
                 ck.violation(f"{mode}: {cat} failure predicted by the model and confirmed by the toolchain: {diags[:2]}",
                              replay, found_input=True, key=key)
 
+    # the witness of every known finding must still reproduce it (otherwise the finding was fixed and
+    # the known_findings entry / the `_refuted` theorem must be revisited)
+    not_reproduced = []
+    for jb in jobs[:n_corpus]:
+        want = (jb.get("expect") or {}).get("key")
+        if want and want not in corpus_status.get(jb["origin"], set()):
+            not_reproduced.append(f"{jb['origin']} ({want})")
+    if not_reproduced:
+        ck.broken(Broken("corpus witnesses of known findings no longer reproduce them: " + ", ".join(not_reproduced),
+                         "either the defect was fixed in /repo (move the entry to status=fixed and drop the guard) or "
+                         "the harness no longer observes it"))
     cov = ck.coverage
     cov["evaluations"] = n_eval
     cov["distinct_nontrivial"] = len([t for t in distinct if "message " in t])
@@ -477,7 +500,8 @@ def run(ck: Check) -> None:
     cov["tie"] = {**cov.get("tie", {}), "jobs": len(jobs), "corpus": n_corpus, "own_stream": n_own, "schema_gen_stream": n_sg,
                   "inside_known_class": n_inside, "tie_mismatches": n_tie_bad, "mode_runs_clean": n_clean,
                   "mode_runs_outside_pre": n_outside_pre, "mode_runs_in_known_class": n_known,
-                  "case_conversion_strings": len(words), "impl_failures": bad_impl}
+                  "case_conversion_strings": len(words), "impl_failures": bad_impl,
+                  "corpus_known_reproduced": {k: sorted(v) for k, v in corpus_status.items()}}
     cov["distribution"] = feature
     for jb, r in list(zip(jobs, results))[n_corpus:n_corpus + 2]:
         if "ast" in r:
